@@ -274,6 +274,39 @@ def is_not_equivalent(n):
     return None
 
 
+# ---- the linear location the constructor sorts / deduplicates by: every `return` of these functions, with the chain of
+# `if` tests that guards it ("" = unconditional)
+RETURN_SITES = [("_coo/common.py", "linear_loc"), ("_coo/core.py", "COO.linear_loc")]
+
+
+def return_paths(trees):
+    out = []
+
+    def walk(stmts, guard, acc):
+        for st in stmts:
+            if isinstance(st, ast.Return):
+                acc.append((" and ".join(guard), ast.unparse(st.value) if st.value is not None else "None"))
+            elif isinstance(st, ast.If):
+                t = ast.unparse(st.test)
+                walk(st.body, guard + [t], acc)
+                walk(st.orelse, guard + [f"not ({t})"], acc)
+            elif isinstance(st, (ast.For, ast.While, ast.With, ast.Try)):
+                raise SiteError(f"return-path site: unexpected control flow {type(st).__name__}")
+    for rel, qual in RETURN_SITES:
+        if rel not in trees:
+            raise SiteError(f"return-path site: file {rel} missing")
+        fn = find_qualified(trees[rel][0], qual)
+        if fn is None:
+            raise SiteError(f"return-path site: {rel}:{qual} not found")
+        acc = []
+        walk(fn.body, [], acc)
+        if not acc:
+            raise SiteError(f"return-path site: {rel}:{qual} has no return")
+        for g, r in acc:
+            out.append((qual, g, r))
+    return out
+
+
 def prune_sites(trees):
     out = []
     for rel, qual, var, exact in PRUNE_SITES:
@@ -333,6 +366,11 @@ def generate(repo):
     pr = prune_sites(trees)
     out.append(";\n".join(f"  (* {rel}:{qual}  {var} = {txt} *)\n  mkPrune {coq_str(rel)} {coq_str(qual)} {coq_str(var)} {shape} {coq_str(txt)}"
                           for rel, qual, var, shape, txt in pr))
+    out.append("].\n")
+    out.append("(* (function, guard, returned expression) of every return of linear_loc / COO.linear_loc: the key the constructor\n"
+               "   sorts and deduplicates by *)\nDefinition linear_loc_returns : list (string * string * string) := [")
+    rp = return_paths(trees)
+    out.append(";\n".join(f"  ({coq_str(q)}, {coq_str(g)}, {coq_str(r)})" for q, g, r in rp))
     out.append("].\n")
     text = "\n".join(out)
     promising = [r for r in sites if r["flags"]["sorted"][0] != "FFalse" and r["flags"]["sorted"][0] != "FDefault"
